@@ -52,9 +52,11 @@ def reflectOk (l r n : Nat) : Bool := l < n && r < n
 def padEvenOk (n : Nat) : Bool := n % 2 == 0 || reflectOk 0 1 n
 def padEvenOut (n : Nat) : Nat := n + n % 2
 
-/-- `DWT`: `x[0::2]` and `x[1::2]` are added, so the axis must be even; result `n / 2`. -/
-def dwtOk (n : Nat) : Bool := n % 2 == 0
-def dwtOut (n : Nat) : Nat := n / 2
+/-- `DWT`: `x[0::2]` (`⌈n/2⌉` samples) and `x[1::2]` (`⌊n/2⌋` samples) are *added*: equal for an even axis (result
+`n / 2`); for an odd axis torch broadcasting silently accepts `n = 3` (2 + 1 ↦ 2) and `n = 1` (1 + 0 ↦ 0) and raises
+otherwise.  MWCNN always pads to an even size first. -/
+def dwtOk (n : Nat) : Bool := (n + 1) / 2 == n / 2 || n / 2 == 1 || (n + 1) / 2 == 1
+def dwtOut (n : Nat) : Nat := if (n + 1) / 2 == n / 2 then n / 2 else if n / 2 == 1 then (n + 1) / 2 else n / 2
 
 /-- `crop_to_shape`: `if h > shape[0]: x = x[:, :, :shape[0], :]`. -/
 def cropTo (t n : Nat) : Nat := if n > t then min n t else n
